@@ -3,7 +3,7 @@
 From Coq Require Import List ZArith NArith String Lia.
 From SudachiVerif Require Import Model.Lattice Model.LatticeM Model.BuildLattice Proofs.LatticeProofs Proofs.LatticeMProofs
      Proofs.BuildLatticeProofs Proofs.BuildOptimal.
-From SudachiVerif Require Generated.ConnFacts.
+From SudachiVerif Require Generated.ConnFacts Generated.OovFacts Generated.CategoryFacts Generated.IndexFacts.
 Open Scope Z_scope.
 
 (* For every connection-cost function and every candidate set inserted in the order Lattice::insert requires:
@@ -80,3 +80,17 @@ Lemma C02_fact_eos_bos :
   (Generated.ConnFacts.eos_left, Generated.ConnFacts.eos_right, Generated.ConnFacts.eos_cost,
    Generated.ConnFacts.bos_right, Generated.ConnFacts.bos_total) = (0%N, 0%N, 0, 0%N, 0).
 Proof. reflexivity. Qed.
+(* which candidates enter the lattice (the `cands` / `fallback` of C02_build_optimal): at every position that a word ends at,
+   dictionary words whose end may begin a word, every OOV provider unless the character carries a NOOOVBOW marker class -- not
+   the weaker "may begin a word" test --, and the LAST provider when nothing was offered; C04 and C13 say what each source
+   offers, these obligations tie the loop itself *)
+Lemma C02_fact_provider_gate :
+  Generated.OovFacts.oov_gate_mask = N.lor Generated.CategoryFacts.NOOOVBOW Generated.CategoryFacts.NOOOVBOW2.
+Proof. vm_compute. reflexivity. Qed.
+Lemma C02_fact_lattice_loop :
+  (Generated.OovFacts.lattice_loop_recognised, Generated.OovFacts.fallback_provider, Generated.OovFacts.lexicon_end_needs_bow)
+  = (true, "last"%string, true).
+Proof. vm_compute. reflexivity. Qed.
+Lemma C02_fact_lookup_shape :
+  Generated.IndexFacts.lattice_lookup_shape = "lookup(mod_c2b[ch_off]);skip(end<len&&!can_bow(end));node(ch_off,mod_b2c[end])"%string.
+Proof. vm_compute. reflexivity. Qed.
